@@ -307,6 +307,17 @@ def c01(res, tier, seed, deep):
     for f in fens[len(hv):len(hv) + 80]:
         if sum(ch.isalpha() for ch in f.split(" ")[0]) <= 8:
             reqs.append("perft 3 " + f)
+    # positions ONE PLY BEFORE A CHECKMATE (single check, double check, double check with a king that has no pseudo-legal
+    # move: corpus/premate_positions.txt, classified by the solver): the walk meets every kind of terminal node as an inner
+    # node, after siblings with moves
+    try:
+        pm = [l.strip() for l in open(os.path.join(VERIF, "corpus", "premate_positions.txt")) if l.strip()]
+    except OSError:
+        pm = []
+    for f in (pm if (tier == "thorough" or deep) else rnd.sample(pm, min(len(pm), 40))):
+        reqs.append("perft 2 " + f)
+        reqs.append("perft 3 " + f)
+    res.tags["premate_positions"] = len(pm)
     # published perft counts (chessprogramming wiki) as fixed regression inputs
     reqs += ["perft 3 rnbqkbnr/pppppppp/8/8/8/8/PPPPPPPP/RNBQKBNR w KQkq - 0 1",
              "perft 3 r3k2r/p1ppqpb1/bn2pnp1/3PN3/1p2P3/2N2Q1p/PPPBBPPP/R3K2R w KQkq - 0 1",
@@ -492,10 +503,23 @@ def vary_clocks(f, rnd):
     return " ".join(p)
 
 
+def ep_terminal_positions(rnd, tier, deep):
+    """corpus/ep_terminal_positions.txt (tools/gen_epterminal.py): mates and stalemates in which an en-passant capture is on the
+    board but illegal (opens the king's rank/diagonal, pinned capturer, unanswered check) — terminal although a pawn "can move""""
+    try:
+        ls = [l.strip() for l in open(os.path.join(VERIF, "corpus", "ep_terminal_positions.txt")) if l.strip()]
+    except OSError:
+        return []
+    return ls if (tier == "thorough" or deep) else rnd.sample(ls, min(len(ls), 500))
+
+
 def c05(res, tier, seed, deep):
     n = 40000 if tier == "thorough" else (12000 if deep else 5000)
     rnd = random.Random(seed)
     fens = [vary_clocks(f, rnd) for f in positions(seed + 13, n) + kxk_positions(rnd, n * 2)]
+    ept = ep_terminal_positions(rnd, tier, deep)
+    res.tags["ep_terminal_positions"] = len(ept)
+    fens += ept
     # extreme material: the heuristic sum passes the mate thresholds there and is clamped (F10)
     fens += OVER_MATERIAL + heavy_positions()
     reqs = []
@@ -522,6 +546,7 @@ def c13(res, tier, seed, deep):
     n = 25000 if tier == "thorough" else (8000 if deep else 3000)
     rnd = random.Random(seed)
     fens = [vary_clocks(f, rnd) for f in positions(seed + 15, n) + kxk_positions(rnd, n)] + OVER_MATERIAL + heavy_positions()
+    fens += ep_terminal_positions(rnd, tier, deep)
     reqs = []
     for f in fens:
         ply = rnd.choice([0, 1, 4, 12])
@@ -683,6 +708,28 @@ def c19(res, tier, seed, deep):
         same = outs[0] == outs[1] == outs[2]
         res.add(r + " #repeat-heavy", outs[0], outs[0], "same", (lambda x, same=same, outs=outs: "same" if same else f"differs: {outs[1][:100]} / {outs[2][:100]}"))
     res.tags["heavy_positions_max_moves"] = max(len(ms) for f, ms in mv) if mv else 0
+    # … and once more while OTHER, unrelated public searches are started and joined in the same process (`searchpubov`):
+    # C19 fixes position, seed, depth limit, fresh memory and one worker — nothing else a process does may enter the report
+    # (process-wide counters, "a newer search supersedes an older one"); only the heaviest positions run long enough to overlap
+    # (corpus/longsearch_positions.txt, tools/gen_longsearch.py: an iteration of >= 10000 nodes within depth 3 and no mate, so the
+    # search reaches a cancellation poll — on most queen-rich positions a mate ends the search long before)
+    try:
+        ls = [l.strip().split(" ", 1)[1] for l in open(os.path.join(VERIF, "corpus", "longsearch_positions.txt")) if l.strip()]
+    except OSError:
+        ls = []
+    ls = ls[:12] if (tier == "thorough" or deep) else rnd.sample(ls, min(len(ls), 4))
+    res.tags["longsearch_positions"] = len(ls)
+    base = [f"searchpub {rnd.getrandbits(32)} 3 {f}" for f in ls]
+    bo, _, _ = wee.run_lines(wee.harness_path(), base, timeout=900, per_request_timeout=120)
+    hp2 = hp + base
+    base_out = [runs[0][k] if k < len(runs[0]) else "<no-output>" for k in range(len(hp))] + [bo[k] if k < len(bo) else "<no-output>" for k in range(len(base))]
+    ov = [r.replace("searchpub ", "searchpubov ", 1) for r in hp2]
+    oo, _, _ = wee.run_lines(wee.harness_path(), ov, timeout=900, per_request_timeout=120)
+    for k, r in enumerate(ov):
+        a = base_out[k]
+        b = oo[k] if k < len(oo) else "<no-output>"
+        res.add(r + " #overlapping-searches", a, a, "same", (lambda x, a=a, b=b: "same" if a == b else f"differs while another search runs: {b[-160:]}"))
+        res.tag("overlapping_search_runs")
     # a LONG history inside one process (thorough tier, and whenever the searcher's source changed): one public search S
     # repeated after 1, 2, 64, 128, 255, 256, 257, 258 … other fresh public searches — anything that survives from one
     # "fresh" search to another (pooled tables, counters that wrap, statics) shows as a different answer for S
@@ -927,6 +974,23 @@ def c04(res, tier, seed, deep):
     for f in forced:
         sreqs.append(f"stoptest {rnd.getrandbits(32)} - {rnd.choice([60, 250, 700])} {rnd.choice([0, 1])} 1 {f}")
     res.tags["forced_outcome_roots"] = len(forced)
+    # a LAZY consumer (receiver kept, read only after the join) of a search that emits hundreds of events: positions with a
+    # single legal move whose successor was searched before on the same artifact (so it counts as a repetition and every
+    # iteration is two nodes), depth limits 150-600
+    single = []
+    for f, ms in model_moves(pool[:300] + ["8/8/8/8/8/8/8/K1k5 w - - 0 1", "7k/8/8/8/8/8/5q2/7K w - - 0 1", "k7/2Q5/8/8/8/8/8/7K b - - 3 9"]):
+        if len(ms) == 1:
+            single.append((f, ms[0][1]))
+    so, _, _ = wee.run_driver([f"apply {raw} {f}" for f, raw in single], jobs=2)
+    lz = [f"lazytest {rnd.getrandbits(32)} {rnd.choice([150, 300, 600])} {m.replace(' ', '_')} {f}"
+          for (f, raw), (m, sp) in zip(single, so) if not m.startswith("err") and m != "panic"][: (10 if (tier == "thorough" or deep) else 4)]
+    lout, _, _ = wee.run_lines(wee.harness_path(), lz, timeout=600, per_request_timeout=60)
+    for r, o in zip(lz, lout):
+        res.add(r, o, o, "joined", (lambda x: "joined" if x.startswith("joined") else x))
+        res.tag("lazy_consumer_runs")
+        mm = re.match(r"joined events=(\d+)", o)
+        if mm:
+            res.tags["lazy_consumer_max_events"] = max(res.tags.get("lazy_consumer_max_events", 0), int(mm.group(1)))
     sout, _, _ = wee.run_lines(wee.harness_path(), sreqs, timeout=1800, per_request_timeout=60)
     worst = 0
     for r, o in zip(sreqs, sout):
@@ -986,6 +1050,26 @@ def c06(res, tier, seed, deep):
         final = bests[-1][0] if bests else None
         res.add(r + " #complete", str(final), str(final), "mate-found",
                 (lambda x, final=final: "mate-found" if final is not None and final >= 10000 else f"forced mate in {d} plies not reported: final evaluation {final}"))
+    # the PUBLIC entry point with its default worker count under different thread-pool sizes (RAYON_NUM_THREADS = 1, 2, 5):
+    # a forced mate in d plies searched with depth limits d+1 … d+3 (at least four iterations, so the multi-worker
+    # iterations run) must end normally with a winning report
+    try:
+        m5 = [l.strip().split(" ", 2) for l in open(os.path.join(VERIF, "corpus", "mate5_positions.txt")) if l.strip()]
+        m5 = [(int(a_), int(b_), f_) for a_, b_, f_ in m5]
+    except OSError:
+        m5 = []
+    # mates in FIVE plies: the public entry point needs five iterations, so iterations 4 and 5 run with the default worker count
+    deepm = m5[: (8 if (tier == "thorough" or deep) else 2)]
+    for threads in ("1", "2", "5"):
+        preqs = [f"searchpub {rnd.getrandbits(32)} {d + k} {f}" for d, keep, f in deepm for k in (0, 1)]
+        pouts, _, _ = wee.run_lines(wee.harness_path(), preqs, timeout=240, per_request_timeout=45, env={"RAYON_NUM_THREADS": threads})
+        for r, o, (d, keep, f) in zip(preqs, pouts, [m for m in deepm for _ in (0, 1)]):
+            bests, _ = parse_events(o)
+            final = bests[-1][0] if bests else None
+            ok = o.endswith("joined") and final is not None and final >= 10000
+            res.add(r + f" #pool-size RAYON_NUM_THREADS={threads}", o[-120:], o[-120:], "mate-found-and-joined",
+                    (lambda x, ok=ok, final=final: "mate-found-and-joined" if ok else f"final evaluation {final}; ends with `{x[-40:]}`"))
+            res.tag("pool_size_runs")
     # soundness on ordinary positions too: any winning terminal claim is checked by the oracle
     oreqs = [f"search {rnd.getrandbits(32)} 3 1 - 2 64 0 {f}" for f in rnd.sample(positions(seed + 31, 300), 10 if tier == "quick" else 40)]
     oimpl = exact_searches(res, oreqs)
@@ -1151,6 +1235,26 @@ def c07(res, tier, seed, deep):
     # extreme material: a legal position with a legal move whose static evaluations exceed the mate scores (F10)
     sessions.append(("f10-over-material", [("position fen 6nk/6pp/8/8/8/8/QQQQQQQQ/KQQQQQQQ b - - 0 1", 0), ("go depth 2", 0), ("isready", 0.5), ("stop", 0),
                      ("position fen 7k/6pp/NNNNN3/NNNNNNNN/NNNNNNNN/NNNNNNNN/NNNNNNNN/K1NNNNNN b - - 0 1", 0), ("go depth 1", 0), ("stop", 0.5)], False))
+    # consecutive `position` commands whose TEXT extends the previous one — by more moves (how a GUI resends a growing game)
+    # and by more characters of the last FEN field (fullmove 1 → 12, 10 → 105): a handler that re-uses what it parsed last
+    # time must still read the whole command
+    def prefix_sessions(pl, r):
+        cmds = []
+        f = r.choice(uci_proc.NONBOOK + ["4k3/8/8/8/8/8/4P3/4K3 w - - 0 1", "r3k2r/8/8/8/8/8/8/R3K2R b KQkq - 3 10"])
+        base = " ".join(f.split(" ")[:5])
+        n0 = f.split(" ")[5]
+        lans, _ = uci_proc.random_walk(pl, r, f, 3)
+        cmds.append((f"position fen {f}", 0)); cmds.append((".state", 0))
+        f2 = f"{base} {n0}{r.randrange(10)}"
+        cmds.append((f"position fen {f2}" + (" moves " + " ".join(lans[:1]) if lans else ""), 0)); cmds.append((".state", 0))
+        cmds.append((f"position fen {f2}" + (" moves " + " ".join(lans[:2]) if lans else ""), 0)); cmds.append((".state", 0))
+        f3 = f"{base} {n0}{r.randrange(10)}{r.randrange(10)}"
+        cmds.append((f"position fen {f3}" + (" moves " + " ".join(lans) if lans else ""), 0)); cmds.append((".state", 0))
+        cmds.append(("position startpos", 0)); cmds.append(("position startpos moves e2e4", 0)); cmds.append((".state", 0))
+        cmds.append(("position startpos moves e2e4 e7e5 g1f3", 0)); cmds.append((".state", 0))
+        return cmds
+    for i in range(6 if tier == "thorough" else (3 if deep else 2)):
+        sessions.append((f"position-text-prefix-{i}", (lambda pl, r=random.Random(rnd.getrandbits(32)): prefix_sessions(pl, r)), False))
     for i in range(n):
         sessions.append((f"random-{seed}-{i}", (lambda pl, r=random.Random(rnd.getrandbits(32)): uci_proc.gen_session(pl, r)), rnd.random() < 0.3))
     run_sessions(res, "sessions", sessions)
@@ -1546,6 +1650,29 @@ def tt_ops(rnd, tables, buckets, nops):
             k = base + span * rnd.randrange(0, 40)
         elif r < 0.8:
             k = rnd.getrandbits(64)
+        elif r < 0.9 and keys:
+            # PARTIAL-KEY collisions: a different key that agrees with an earlier one in its low 32 bits, its high 32 bits,
+            # its xor-fold to 32 or 16 bits, or its low 48 bits — and in table and bucket: a table that compares anything
+            # less than the full 64-bit key hands out a neighbour's entry exactly here
+            k0 = rnd.choice(keys)
+            k = k0
+            for _ in range(4000):
+                x = rnd.getrandbits(32) | 1
+                mode = rnd.randrange(5)
+                if mode == 0:
+                    c = k0 ^ (x << 32)                      # same low 32
+                elif mode == 1:
+                    c = k0 ^ x                              # same high 32
+                elif mode == 2:
+                    c = k0 ^ ((x << 32) | x)                # same hi32 ^ lo32
+                elif mode == 3:
+                    y = x & 0xFFFF
+                    c = k0 ^ (y << 48) ^ (y << 32) if y else k0 ^ 1   # same 16-bit xor-fold
+                else:
+                    c = k0 ^ ((x & 0xFFFF) << 48)           # same low 48
+                if c != k0 and c % tables == k0 % tables and (c % buckets) == (k0 % buckets):
+                    k = c
+                    break
         else:
             k = rnd.randrange(0, 3 * span + 5)
         keys.append(k)
@@ -1611,7 +1738,21 @@ def c15(res, tier, seed, deep):
         ok = tt_spec_ok(e, s)
         res.add(creq + " => " + rreq[:400], e, m, "spec-ok", (lambda x, ok=ok: "spec-ok" if ok else "spec-violated"))
         res.tag("concurrent_runs")
-    return "sequential op sequences over 10 fixed tiny shapes and random shapes, keys drawn to collide in table and bucket (k = base + tables*buckets*j), repeated keys, random 64-bit keys; finds compared with the abstract history (must return latest when the bucket never saw more than 8 distinct keys, else latest-or-nothing) and exactly with the Lean model; concurrent: 2-32 real threads on tiny tables, the ticket-ordered operation log recorded inside the critical sections is replayed on the model and every logged result compared; non-trivial = some bucket overflowed"
+    # the table used the way a search uses it — from RAYON pool threads: every key is stored once up front, half of the pool
+    # tasks re-store those keys (same-key stores never displace), the other half look them up; no bucket ever fills, so a
+    # lookup that comes back empty, or with another key's entry, is a violation as observed by the CALLER (the operation log
+    # above is taken inside the critical sections and cannot see a lookup that gave up before entering one)
+    rreqs = []
+    for i in range(12 if tier == "thorough" else (6 if deep else 3)):
+        t, b = rnd.choice([(1, 1), (1, 2), (2, 2), (2, 4), (4, 8)])
+        rreqs.append(f"ttrayon {t} {b} {rnd.choice([8, 16, 32])} {rnd.choice([20000, 50000])} {rnd.getrandbits(32)}")
+    rout, _, _ = wee.run_lines(wee.harness_path(), rreqs, timeout=900, per_request_timeout=120)
+    for r, o in zip(rreqs, rout):
+        mm = re.search(r"finds=(\d+) lost=(\d+) foreign=(\d+)", o)
+        ok = bool(mm) and mm.group(2) == "0" and mm.group(3) == "0" and int(mm.group(1)) > 0
+        res.add(r, o, o, "all-found", (lambda x, ok=ok: "all-found" if ok else "lookup of a stored, never displaced key failed: " + x))
+        res.tag("rayon_pool_runs")
+    return "sequential op sequences over 10 fixed tiny shapes and random shapes, keys drawn to collide in table and bucket (k = base + tables*buckets*j), repeated keys, random 64-bit keys; finds compared with the abstract history (must return latest when the bucket never saw more than 8 distinct keys, else latest-or-nothing) and exactly with the Lean model; concurrent: 2-32 real threads on tiny tables, the ticket-ordered operation log recorded inside the critical sections is replayed on the model and every logged result compared; lookups of stored, never displaced keys from rayon pool threads while other pool threads re-store them (results as seen by the caller); non-trivial = some bucket overflowed"
 
 
 def c20(res, tier, seed, deep):
@@ -1766,6 +1907,32 @@ def run_check(pid, tier, seed, t0):
     ok, msg, changed = wee.step_extract()
     if not ok:
         res.broken.append("tie(a) extractor: " + msg)
+    # shape facts of the source (hidden-state sites, table/channel/worker-count primitives): the hand model has no
+    # counterpart for a new static / thread-local / cell / lock, and fixes the semantics of these primitives
+    try:
+        cur = json.load(open(os.path.join(wee.BUILD, "fingerprints.json"))).get("shape", {})
+        base = json.load(open(os.path.join(VERIF, "fingerprints.baseline.json"))).get("shape", {})
+        rel = {"C01": ["movegen", "moves", "state", "board", "attacks", "common"], "C02": ["state", "moves", "board", "movegen"],
+               "C08": ["hasher"], "C09": ["attacks", "common", "board"], "C10": ["board", "state", "attacks"],
+               "C11": ["notation", "board", "state"], "C12": ["notation", "moves"], "C14": ["notation", "board", "uci"],
+               "C16": ["corebook", "enginebook", "buildrs", "notation", "hasher"], "C20": ["moves", "piece", "board"],
+               "C05": ["eval", "eval_edge", "eval_pawns", "eval_squares", "eval_worths", "board"], "C13": ["eval", "eval_edge", "eval_pawns", "eval_squares", "eval_worths"],
+               "C07": ["uci", "searcher", "enginebook", "state"], "C18": ["uci", "searcher"]}
+        search_props = ("C03", "C04", "C06", "C15", "C17", "C19", "C07", "C18")
+        names = rel.get(pid, ["searcher", "eval", "hasher", "movegen", "state"])
+        diffs = []
+        for k in sorted(set(cur) | set(base)):
+            if cur.get(k, 0) == base.get(k, 0):
+                continue
+            kind, _, rest = k.partition(":")
+            if kind == "state" and rest.split(":")[0] in names:
+                diffs.append(f"{k}: {base.get(k, 0)} -> {cur.get(k, 0)}")
+            if kind == "prim" and pid in search_props:
+                diffs.append(f"{k}: {base.get(k, 0)} -> {cur.get(k, 0)}")
+        if diffs:
+            res.broken.append("tie(a) shape: the source has state-carrying sites or primitives the model does not mirror: " + "; ".join(diffs)[:600])
+    except OSError:
+        pass
     reg = registry().get(pid, {"modules": [], "theorems": []})
     if reg["modules"]:
         proof = wee.prove(pid, reg)
